@@ -71,7 +71,7 @@ def bounds(tier):
     return {
         "letter_alphabets": "sizes 1..94 (one per size, seed-chosen order of the 94 printables) + ACGT, IUPAC-15, protein-24",
         "letter_bytes": 256, "letter_codes": "[-300,600] + {+-2^31, 2^32+1, 2^63-1, 2^64-1}",
-        "generic_sizes": "1..5 over 4 palettes (+ 256/257-symbol alphabets)", "generic_seq_len": 3,
+        "generic_sizes": "1..5 over 5 palettes (+ 256/257-symbol alphabets)", "generic_seq_len": 3,
         "mapper_alphabets": 8,
         "kmer_base": "2..4", "kmer_k": "2..4" if q else "2..5", "kmer_span": "<= k+2",
         "kmer_seq_len": "<= span+2 (n^len <= 2048)" if q else "<= span+3 (n^len <= 16384)",
